@@ -381,6 +381,48 @@ def walk_sources(rng, quick):
             out.append((f"walk-defer-label-two-unused-fragments-{via}-{total}",
                         f"{{ x }}\nfragment U on Query {{ {deep} }}\nfragment V on Query {{ {deep} }}\n"))
             out.append((f"walk-defer-label-operation-{via}-{total}", f"{{ {deep} }}\n"))
+    # validate_selection_set (DepthGuard 500, same counting as the deduplicating walk): where it must NOT descend,
+    # what it visits once, what it counts
+    for total in (W - 1, W, W + 1, W + 2):
+        # `a` without sub-selection at nesting `total`: MissingSubselection, no descent (the deduplicating walk
+        # counts the empty selection set of every field, this walk only of the fields it descends into)
+        for via in ("f", "i"):
+            out.append((f"walk-sel-missing-subselection-{via}-{total}", "{ " + nest(via * (total - 1), "a") + " }\n"))
+            out.append((f"walk-sel-leaf-{via}-{total}", "{ " + nest(via * (total - 1), "x") + " }\n"))
+            out.append((f"walk-sel-typename-{via}-{total}", "{ " + nest(via * (total - 1), "__typename") + " }\n"))
+        # the spread of a fragment that is validated already, of an undefined one, and of a new one at the limit
+        out.append((f"walk-sel-spread-validated-{total}",
+                    "{ ...F " + nest("i" * (total - 1), "...F") + " }\nfragment F on Query { x }\n"))
+        out.append((f"walk-sel-spread-undefined-{total}", "{ " + nest("i" * (total - 1), "...U ...U") + " }\n"))
+        out.append((f"walk-sel-spread-new-{total}",
+                    "{ " + nest("f" * (total - 1), "...F") + " }\nfragment F on Query { ...U }\n"))
+        out.append((f"walk-sel-spread-new-cyclic-{total}",
+                    "{ " + nest("f" * (total - 1), "...F") + " }\nfragment F on Query { a { ...F } }\n"))
+    deep = nest("i" * 600, "...U")
+    out.append(("walk-sel-inline-on-scalar", "{ ... on Int { " + deep + " } x }\n"))
+    out.append(("walk-sel-inline-on-query", "{ ... on Query { " + deep + " } x }\n"))
+    out.append(("walk-sel-fragment-on-scalar", "{ ...F x }\nfragment F on Int { " + deep + " }\n"))
+    out.append(("walk-sel-fragment-on-query", "{ ...F x }\nfragment F on Query { " + deep + " }\n"))
+    out.append(("walk-sel-fragment-cyclic", "{ ...A x }\nfragment A on Query { " + nest("i" * 600, "...A") + " }\n"))
+    out.append(("walk-sel-fragment-cyclic-pair",
+                "{ ...A x }\nfragment A on Query { " + nest("i" * 300, "...B") + " }\n"
+                "fragment B on Query { " + nest("f" * 300, "...A") + " }\n"))
+    out.append(("walk-sel-undefined-counted", "{ ...U ...F ...F a { ...U } }\nfragment F on Query { ...U ...V }\n"))
+    for nfrag, per in ((11, 49), (6, 99)):
+        frs = [(f"F{i}", nest("f" * per, f"...F{i + 1}" if i + 1 < nfrag else "x")) for i in range(nfrag)]
+        # leaf first: every fragment is validated at a shallow depth first
+        out.append((f"walk-sel-leaf-first-{nfrag}x{per}",
+                    frag_doc(frs, op=" ".join(f"...F{i}" for i in reversed(range(nfrag))))))
+        # validated_fragments belongs to the operation: each of the two operations reports
+        body = "\n".join(f"fragment {n} on Query {{ {b} }}" for n, b in frs)
+        out.append((f"walk-sel-two-operations-{nfrag}x{per}", "query A { ...F0 }\nquery B { x ...F0 }\n" + body + "\n"))
+        out.append((f"walk-sel-second-operation-shallow-{nfrag}x{per}",
+                    "query A { ...F0 }\nquery B { ...F%d }\n" % (nfrag - 1) + body + "\n"))
+    # a fragment seen first on a short path is not validated again on a long one
+    out.append(("walk-sel-shallow-first",
+                "{ a { ...F } " + nest("i" * 450, "...F") + " }\nfragment F on Query { " + nest("f" * 100, "x") + " }\n"))
+    out.append(("walk-sel-deep-first",
+                "{ " + nest("i" * 450, "...F") + " a { ...F } }\nfragment F on Query { " + nest("f" * 100, "x") + " }\n"))
     # random small documents with defer / skip / include
     dirs = ["", "", " @defer", " @defer(if: false)", " @defer(if: true)", " @defer(if: $v)", " @skip(if: false)",
             " @skip(if: true)", " @include(if: true)", " @include(if: false)", " @skip(if: $v)", " @defer(label: \"l\")",
@@ -632,10 +674,11 @@ def renderer_sources():
 
 def overflow_sources(quick):
     """the product of fragment-chain length (<= 100 by the cycle guard) and per-fragment nesting (<= 500 by the
-    parser): validate_selection_set recurses through all of it without a guard"""
+    parser): validate_selection_set used to recurse through all of it without a guard (50 x 100 overflowed a 1 MiB
+    stack, 99 x 400 an 8 MiB stack); its DepthGuard now stops it at 500"""
     out = []
     for nf, k, via in ((10, 100, "f"), (50, 100, "f"), (99, 100, "f"), (20, 480, "f"), (50, 100, "i"), (99, 400, "f")):
-        if quick and nf * k > 10000:
+        if quick and nf * k > 10000 and (nf, k) != (50, 100):
             continue
         frs = [(f"F{i}", nest(via * k, f"...F{i + 1}" if i + 1 < nf else "x")) for i in range(nf)]
         out.append((f"overflow-{via}-{nf}x{k}", "type Query { a: Query x: Int }", frag_doc(frs, op="...F0"), nf * k))
